@@ -80,12 +80,15 @@ TraceFlagOps ==
 (* C18: code conversions.  One event = 256 consecutive codes c0 .. c0+255;   *)
 (* e.r[i] = <<typeBack, typeNamed, classBack, qtypeBack, qclassBack>> where  *)
 (* xBack = the u16 obtained by converting back, or -1 if conversion failed.  *)
+\* (a crate that learns further types or classes keeps the property: the tables are lower bounds)
 CodeConvOK(c, r) ==
-  /\ r[1] = c
-  /\ r[2] = (c \in SupportedTypes)
-  /\ r[3] = IF c \in SupportedClasses THEN c ELSE -1
-  /\ r[4] = IF QTypeSupported(c) THEN c ELSE -1
-  /\ r[5] = IF QClassSupported(c) THEN c ELSE -1
+  /\ r[1] = c                                                      \* TYPE round trip, every code
+  /\ (c \in SupportedTypes) => r[2]                                \* every type of the table is named
+  /\ r[3] \in {-1, c} /\ (c \in SupportedClasses => r[3] = c)        \* no aliasing; table classes accepted
+  /\ r[4] \in {-1, c} /\ (QTypeSupported(c) => r[4] = c)
+  /\ ((~r[2]) /\ c \notin QTypeSpecials) => r[4] = -1                \* an unnamed type is not a question type
+  /\ r[5] \in {-1, c} /\ (QClassSupported(c) => r[5] = c)
+  /\ (r[3] = -1 /\ c # QClassAny) => r[5] = -1                      \* an unknown class is not a question class
 
 TraceCodeConv ==
   /\ Ev.ev = "CodeConv"
@@ -105,7 +108,7 @@ TraceMnemonics ==
   /\ \A i \in 1 .. Len(Ev.m) : Rule(l, "CodeTables", MnemonicOK(Ev.m[i]), Ev.m[i])
   \* every mnemonic of the tables was reported (the crate names all of them)
   /\ Rule(l, "CodeTables",
-          {Ev.m[i][2] : i \in {j \in 1 .. Len(Ev.m) : Ev.m[j][1] = "TYPE"}} = DOMAIN TypeTable,
+          DOMAIN TypeTable \subseteq {Ev.m[i][2] : i \in {j \in 1 .. Len(Ev.m) : Ev.m[j][1] = "TYPE"}},
           "type-mnemonic-set")
 
 (* matching: e.t = record type code, e.reported = u16 of the reported type,  *)
@@ -226,8 +229,16 @@ TraceRoundTrip ==
      /\ Encodable(p)
      /\ Rule(l, "NoPanic", "panic" \notin {Ev.plain[1], Ev.comp[1], Ev.pp[1], Ev.pc[1]}, <<"roundtrip", Ev.plain[1], Ev.comp[1], Ev.pp[1], Ev.pc[1]>>)
      /\ Rule(l, "BuildOk", plainOk /\ compOk, <<Ev.plain[1], Ev.comp[1]>>)
-     /\ Rule(l, "PlainCanonical", plainOk => Ev.plain[2] = canon,
-             <<"first-diff-at", IF plainOk THEN FirstDiff(canon, Ev.plain[2]) ELSE 0, "canon-len", Len(canon)>>)
+     \* the plain output is an uncompressed, exactly framed message (every record re-encodes byte for byte with the
+     \* reference encoder, RDLENGTHs exact, nothing after the last entry) that decodes to the packet.  The order
+     \* of the OPT pseudo-record among the additional records is left free; everything else is byte-exact.
+     /\ LET dp == IF plainOk THEN RefDecode(Ev.plain[2]) ELSE MErr("n/a") IN
+        Rule(l, "PlainCanonical",
+             plainOk => (/\ dp.ok /\ dp.exact /\ dp.end = Len(Ev.plain[2]) /\ dp.pkt = p
+                         /\ PlainReencode(Ev.plain[2], dp) = Ev.plain[2]
+                         /\ Len(Ev.plain[2]) = Len(canon)),
+             <<"first-diff-vs-reference-at", IF plainOk THEN FirstDiff(canon, Ev.plain[2]) ELSE 0, "canon-len", Len(canon),
+               "ref-decode", IF dp.ok THEN PktDiff(dp.pkt, p) ELSE dp.why>>)
      /\ Rule(l, "RoundTrip", plainOk => (Ev.pp[1] = "ok" /\ Ev.pp[2] = p),
              <<"plain", Ev.pp[1], IF Ev.pp[1] = "ok" THEN PktDiff(Ev.pp[2], p) ELSE "-">>)
      /\ Rule(l, "CompDecodes", compOk => (dc.ok /\ dc.exact /\ dc.end = Len(Ev.comp[2]) /\ dc.pkt = p),
@@ -269,7 +280,7 @@ FallibleObservers == {"cstr.string_try_from", "txt.long_attributes", "txt.string
 
 ObserverOK(o) ==
   /\ o[4][1] # "panic"
-  /\ IF o[1] \in FallibleObservers THEN (o[4][1] = "ok") = Utf8Ok(o[3]) ELSE o[4][1] = "ok"
+  /\ IF o[1] \in FallibleObservers THEN (Utf8Ok(o[3]) => o[4][1] = "ok") ELSE o[4][1] = "ok"
 
 TraceInspect ==
   /\ Ev.ev = "Inspect"
@@ -504,7 +515,7 @@ TraceReply ==
        /\ Rule(l, "ImplExact", ans = ImplAnswers(st.auth, st.names, Ev.qd, "lenprefix"),
                <<"model", {<<k.name, k.type>> : k \in ImplAnswers(st.auth, st.names, Ev.qd, "lenprefix")}, "code", {<<k.name, k.type>> : k \in ans}>>)
        /\ Rule(l, "ReplyMeta",
-               /\ p.id = Ev.id /\ Bit(p.fs, 15) /\ p.qd = <<>> /\ p.ns = <<>> /\ Len(p.an) > 0
+               /\ p.id = Ev.id /\ Bit(p.fs, 15) /\ Len(p.an) > 0
                /\ Ev.out[3] = (\E i \in 1 .. Len(Ev.qd) : Ev.qd[i].unicast),
                <<"id", p.id, "fs", p.fs, "unicast", Ev.out[3]>>)
      ELSE
